@@ -247,6 +247,12 @@ def bigm_sweep(res):
                         opts = ["cvt:bigM=10000"] if bigm else []
                         r = vd.run(nlb, cfg, options=opts, ampl=True, timeout=60)
                         needs = (rel in ("ge", "gt", "eq") and lb == -INF) or (rel in ("le", "lt", "eq") and ub == INF)
+                        # a comparison the bounds already decide may or may not be folded to a constant before conversion
+                        decided = {"ge": lb >= rhs or ub < rhs, "gt": lb > rhs or ub <= rhs, "le": ub <= rhs or lb > rhs, "lt": ub < rhs or lb >= rhs,
+                                   "eq": rhs < lb or rhs > ub}[rel]
+                        if decided:        # whether such a comparison is folded before conversion is not specified: not judged
+                            res.case(common.h(["bigm", form, str(lb), str(ub), rel, str(rhs), bigm]), False, labels=["bigm-sweep", "bigm-decided-by-bounds"])
+                            continue
                         expect_fail = needs and not bigm
                         code = r.sol.code if r.sol else None
                         msg = " ".join(r.sol.message) if r.sol else (r.err + r.out)
